@@ -6,6 +6,7 @@ import (
 	"bytes"
 	"encoding/json"
 	"fmt"
+	"math/big"
 	"strings"
 )
 
@@ -263,6 +264,13 @@ func (s *BuiltinType) FilterJson(data json.RawMessage, _ *TypeLookup) (json.RawM
 		if err := json.Unmarshal(data, &tmp); err != nil {
 			var tmp float64
 			if err := json.Unmarshal(data, &tmp); err != nil {
+				return data, true, err
+			}
+			// A float64 cannot hold every int64: convert the literal exactly.
+			if r, ok := new(big.Rat).SetString(string(data)); ok {
+				if r.IsInt() && r.Num().IsInt64() {
+					return []byte(r.Num().String()), false, err
+				}
 				return data, true, err
 			}
 			if i := int64(tmp); float64(i) != tmp {
